@@ -294,7 +294,9 @@ def gen_cond(rng, depth=0):
         val = None
     elif op.upper() in ('LIKE', 'NOT LIKE'):
         val = rng.choice(["a%", "%b", "_", "%", "a_b", "x'y", "A%", "", "%'%", "a\\%", "c:\\t%", "%\\%", "c:\\tmp\\a", "\\_",
-                          "a", "A", "AB", "Ab", "ABC", "abc", "X'Y", '"Q"'])
+                          "a", "A", "AB", "Ab", "ABC", "abc", "X'Y", '"Q"',
+                          # (patterns without a wildcard are patterns all the same: LIKE is not '=')
+                          "A", "AB", "aBc", "A  B", "C:TMPA"])
         if val == "a\\%":
             val = "a%"
         if rng.random() < 0.25:
@@ -509,6 +511,11 @@ def run_case(ctx, rng):
     exp = [r['id'] for r in rows if AND(ev(c, r) for c in all_conds) is True]
     if order is not None and order.endswith("DESC"):
         exp.reverse()
+    force_scalar = False
+    if len(exp) == 1 and not rows[exp[0]]['id'] and mode in ("list", "all", "table") and rng.random() < 0.6:
+        # (exactly one row is asked for, and the first thing in it is a zero)
+        mode, force_scalar = "one", True
+        case["mode"] = mode
     call_kw = dict(kw)
     if order is not None:
         call_kw['_order_by'] = order
@@ -571,7 +578,7 @@ def run_case(ctx, rng):
                 ctx.count("queries_whose_select_text_holds_a_question_mark")
             if mode in ("one", "one_or_none"):
                 ctx.count("one_row_semantics_checked")
-                scalar = rng.random() < 0.3      # the single row may be asked for as a scalar (id 0 is falsy)
+                scalar = rng.random() < 0.3 or force_scalar     # the single row may be asked for as a scalar (id 0 is falsy)
                 if scalar:
                     call_kw['_as_scalars'] = True
                 no_key = rng.random() < 0.3
